@@ -1,8 +1,10 @@
----------------------------- MODULE FedRouteTrace ----------------------------
+---------------------------- MODULE FedRouteSaltTrace --------------------------
 (***************************************************************************)
-(* Judge for the ROUTING clauses (CallRoute) on the traces of              *)
-(* harness/C20_route_federation; growth beyond the property statements:    *)
-(* rejections are reported as DRIFT (checks/C20_route.py).  Events:        *)
+(* Judge for the SALTING clause only (SaltOK = C19's statement) on the     *)
+(* traces of harness/C20_route_federation: wherever a request arrives,     *)
+(* right backend or not, the token it carries must be salted for that      *)
+(* remote.  Strict: a rejection is a C19 violation (checks/C19.py).        *)
+(* Events:                                                                 *)
 (*   {"ev":"reset","scn":id,"method":m,"mc":c,"pfx":p,"known":[..],        *)
 (*    "login":l}                                                           *)
 (*   {"ev":"call","dest":d,"tok":{"salted":b,"leak":b,"foreign":b}}        *)
@@ -19,7 +21,7 @@ TraceReset == /\ IsEvent("reset")
               /\ ncalls' = [d \in Dests |-> 0]
               /\ done' = FALSE
 
-TraceCall == IsEvent("call") /\ CallRoute(Ev.dest)
+TraceCall == IsEvent("call") /\ SaltOK(Ev.dest, Ev.tok) /\ UNCHANGED cvars
 TraceSide == IsEvent("side") /\ Side(Ev.dest)
 TraceDone == IsEvent("done") /\ Done(Ev.ok)
 
